@@ -306,6 +306,42 @@ func main() {
 		forwarded := append([]string(nil), got...)
 		mu.Unlock()
 		sort.Strings(forwarded)
+		if mode == "up" || mode == "slow" || mode == "up-smallqueue" {
+			// one line per distinct accepted triple: the four facts of Model/Receipt.lean (the two cryptographic ones
+			// computed here, with the linked implementation), how often it was accepted, how often the service received it
+			seenT := map[string]bool{}
+			for _, a := range accepted {
+				k := key3(a)
+				if seenT[k] {
+					continue
+				}
+				seenT[k] = true
+				acc, fw := 0, 0
+				for _, b := range accepted {
+					if key3(b) == k {
+						acc++
+					}
+				}
+				for _, f := range forwarded {
+					if f == "/receipt "+k {
+						fw++
+					}
+				}
+				recid := 0
+				if len(a.sig) == 65 {
+					recid = int(a.sig[64])
+				}
+				_, rerr := crypto.Ecrecover(a.hash, a.sig)
+				b := func(x bool) int {
+					if x {
+						return 1
+					}
+					return 0
+				}
+				fmt.Fprintf(os.Stdout, "RTRIPLE hashOk=%d siglen=%d recid=%d recovers=%d accepted=%d forwarded=%d kind=%s mode=%s\n",
+					b(bytes.Equal(crypto.Keccak256([]byte(a.receipt)), a.hash)), len(a.sig), recid, b(rerr == nil), acc, fw, a.kind, mode)
+			}
+		}
 		var expect []string
 		for _, a := range accepted {
 			if a.valid {
